@@ -50,10 +50,11 @@ type ReaderC struct {
 	Kind       string `json:"kind"` // manual | periodic
 	IntervalUs int    `json:"intervalUs"`
 	ExpMode    string `json:"expMode"` // ok | slow | failing
+	BadAgg     bool   `json:"badAgg"`  // the reader's aggregation selector is unusable for counters: resolution fails for this reader
 }
 type InstC struct {
 	Name string `json:"name"`
-	Kind string `json:"kind"` // counter | updown
+	Kind string `json:"kind"` // counter | updown | ocounter (observable counter: its callback observes 1 for every stream)
 	Num  string `json:"num"`  // int64 | float64
 	Late bool   `json:"late"` // created by the first recorder that uses it (while collections run)
 }
@@ -92,6 +93,7 @@ type Scenario struct {
 	OwnHandles bool      `json:"ownHandles"`
 	CbErrPct   int       `json:"cbErrPct"`        // the observable callback returns an error in this share of its calls
 	CbErrAt    []int     `json:"cbErrAt"`         // ... and at these invocations (1-based count per scenario), for directed schedules
+	BadView    bool      `json:"badView"`         // two views match every instrument: one asks for an incompatible aggregation, one is valid
 	Hammer     int       `json:"hammer"`          // goroutines hammering the hot attribute sets with Add(0): keeps the stream mutexes contended
 	Cold       int       `json:"cold"`            // extra attribute sets per instrument, kept alive with Add(0): makes the snapshot copy long
 	Steps      []string  `json:"steps,omitempty"` // choreography: start:K sleep:MS awaitpark:K awaitq:N release:K
@@ -267,13 +269,23 @@ type recExporter struct {
 	sc        int
 	mu        sync.Mutex
 	rng       *rand.Rand
+	badAgg    bool
 	n         int64
 	cancelled int64
 }
 
 func (e *recExporter) Temporality(sdkmetric.InstrumentKind) metricdata.Temporality { return e.temp }
 func (e *recExporter) Aggregation(k sdkmetric.InstrumentKind) sdkmetric.Aggregation {
-	return sdkmetric.DefaultAggregationSelector(k)
+	return aggSelector(e.badAgg)(k)
+}
+
+// aggSelector returns the default selector, or (bad) one that asks for a last-value aggregation for every kind:
+// incompatible with counters, so their resolution fails for a reader that uses it.
+func aggSelector(bad bool) sdkmetric.AggregationSelector {
+	if !bad {
+		return sdkmetric.DefaultAggregationSelector
+	}
+	return func(sdkmetric.InstrumentKind) sdkmetric.Aggregation { return sdkmetric.AggregationLastValue{} }
 }
 func (e *recExporter) Export(ctx context.Context, rm *metricdata.ResourceMetrics) error {
 	// rm is pooled by the reader: project it before returning
@@ -380,7 +392,7 @@ func runScenario(scn int, sc Scenario, tw *vh.TraceWriter, res *vh.Result) {
 		}
 		lr := &liveReader{c: rc}
 		if rc.Kind == "periodic" {
-			lr.exp = &recExporter{rd: rc.Name, temp: temp, mode: rc.ExpMode, log: log, proj: proj, sched: sched, sc: scn,
+			lr.exp = &recExporter{rd: rc.Name, temp: temp, mode: rc.ExpMode, log: log, proj: proj, sched: sched, sc: scn, badAgg: rc.BadAgg,
 				rng: rand.New(rand.NewSource(sc.Seed + int64(i) + 11))}
 			iv := time.Hour // scripted scenarios: no ticks (Go's ticker cannot be gated)
 			if rc.IntervalUs > 0 {
@@ -391,11 +403,21 @@ func runScenario(scn int, sc Scenario, tw *vh.TraceWriter, res *vh.Result) {
 		} else {
 			t := temp
 			lr.manual = sdkmetric.NewManualReader(sdkmetric.WithTemporalitySelector(
-				func(sdkmetric.InstrumentKind) metricdata.Temporality { return t }))
+				func(sdkmetric.InstrumentKind) metricdata.Temporality { return t }),
+				sdkmetric.WithAggregationSelector(aggSelector(rc.BadAgg)))
 			opts = append(opts, sdkmetric.WithReader(lr.manual))
 		}
 		readers[rc.Name] = lr
 		order = append(order, lr)
+	}
+	partial := sc.BadView
+	for _, rc := range sc.Readers {
+		partial = partial || rc.BadAgg
+	}
+	if sc.BadView {
+		opts = append(opts, sdkmetric.WithView(
+			sdkmetric.NewView(sdkmetric.Instrument{Name: "inst*"}, sdkmetric.Stream{Aggregation: sdkmetric.AggregationLastValue{}}),
+			sdkmetric.NewView(sdkmetric.Instrument{Name: "inst*"}, sdkmetric.Stream{})))
 	}
 	ch := newChoreo(sc.Steps)
 	if sc.Filter {
@@ -414,7 +436,13 @@ func runScenario(scn int, sc Scenario, tw *vh.TraceWriter, res *vh.Result) {
 
 	cfgReaders := map[string]any{}
 	for _, rc := range sc.Readers {
-		cfgReaders[rc.Name] = map[string]any{"temp": rc.Temp, "kind": rc.Kind}
+		cfgReaders[rc.Name] = map[string]any{"temp": rc.Temp, "kind": rc.Kind, "wired": !rc.BadAgg}
+	}
+	obsKeys := []string{}
+	for _, st := range sc.Streams {
+		if sc.Insts[st.Inst].Kind == "ocounter" {
+			obsKeys = append(obsKeys, st.Key)
+		}
 	}
 
 	// ---- instruments
@@ -439,10 +467,62 @@ func runScenario(scn int, sc Scenario, tw *vh.TraceWriter, res *vh.Result) {
 		default:
 			h.uf64, err = meter.Float64UpDownCounter(ic.Name)
 		}
+		if err != nil && partial {
+			// documented: creation returns a usable instrument alongside the error; the application carries on with it
+			res.Count("instrument_creation_errors", 1)
+			err = nil
+		}
 		vh.Must(err)
+		if h.i64 == nil && h.f64 == nil && h.u64 == nil && h.uf64 == nil {
+			vh.Must(errors.New("instrument creation returned no instrument"))
+		}
+	}
+	// observable counters: the callback observes 1 for each of the instrument's streams, from registration on
+	// (recorded as one measurement <<key, 0>> whose Add returned when the registration returned)
+	mkObs := func(i int) {
+		ic := sc.Insts[i]
+		var sets []metric.ObserveOption
+		var keys []string
+		for _, st := range sc.Streams {
+			if st.Inst == i {
+				sets = append(sets, metric.WithAttributeSet(attribute.NewSet(attribute.Int("a", st.Attr))))
+				keys = append(keys, st.Key)
+			}
+		}
+		for _, k := range keys {
+			log.put(event{ev: "Call", op: "Add", key: k, i: 0})
+		}
+		var err error
+		if ic.Num == "int64" {
+			_, err = meter.Int64ObservableCounter(ic.Name, metric.WithInt64Callback(func(_ context.Context, o metric.Int64Observer) error {
+				for _, a := range sets {
+					o.Observe(1, a)
+				}
+				return nil
+			}))
+		} else {
+			_, err = meter.Float64ObservableCounter(ic.Name, metric.WithFloat64Callback(func(_ context.Context, o metric.Float64Observer) error {
+				for _, a := range sets {
+					o.Observe(1, a)
+				}
+				return nil
+			}))
+		}
+		if err != nil && partial {
+			res.Count("instrument_creation_errors", 1)
+			err = nil
+		}
+		vh.Must(err)
+		for _, k := range keys {
+			log.put(event{ev: "Ret", op: "Add", key: k, i: 0})
+		}
 	}
 	for i := range sc.Insts {
 		insts[i] = &instH{}
+		if sc.Insts[i].Kind == "ocounter" {
+			mkObs(i)
+			continue
+		}
 		if !sc.Insts[i].Late {
 			insts[i].once.Do(func() { mk(i, insts[i]) })
 		}
@@ -487,7 +567,7 @@ func runScenario(scn int, sc Scenario, tw *vh.TraceWriter, res *vh.Result) {
 		vh.Must(err)
 	}
 
-	tw.Emit(map[string]any{"ev": "Cfg", "sc": scn, "name": sc.Name, "readers": cfgReaders})
+	tw.Emit(map[string]any{"ev": "Cfg", "sc": scn, "name": sc.Name, "readers": cfgReaders, "obskeys": obsKeys, "partial": partial})
 
 	var wg sync.WaitGroup
 	var live sync.Map
@@ -538,7 +618,9 @@ func runScenario(scn int, sc Scenario, tw *vh.TraceWriter, res *vh.Result) {
 			defer bg.Done()
 			for n := hmr; atomic.LoadInt32(&stopBg) == 0; n++ {
 				st := sc.Streams[n%len(sc.Streams)]
-				addZero(st.Inst, hotOpt[st.Key])
+				if sc.Insts[st.Inst].Kind != "ocounter" {
+					addZero(st.Inst, hotOpt[st.Key])
+				}
 			}
 		}()
 	}
@@ -549,6 +631,9 @@ func runScenario(scn int, sc Scenario, tw *vh.TraceWriter, res *vh.Result) {
 		}
 		for i := range sc.Insts {
 			i := i
+			if sc.Insts[i].Kind == "ocounter" {
+				continue
+			}
 			bg.Add(1)
 			go func() {
 				defer bg.Done()
@@ -1130,9 +1215,87 @@ func randomScenario(r *rand.Rand, storm bool) Scenario {
 	return sc
 }
 
+// partialScenario: provider configurations in which instrument creation partially fails (some readers cannot
+// resolve the instrument, or one of several matching views is unusable) while the application keeps using the
+// instrument the API returned alongside the error.  Mostly sequential: a few Adds, every reader collects.
+func partialScenario(r *rand.Rand) Scenario {
+	sc := Scenario{Seed: r.Int63(), Filter: r.Intn(2) == 0, Name: "partial"}
+	nr := 2 + r.Intn(3)
+	mode := r.Intn(4) // 0: bad selector(s)  1: bad view  2: both  3: control (no error)
+	bad := map[int]bool{}
+	if mode == 0 || mode == 2 {
+		switch r.Intn(4) {
+		case 0:
+			bad[0] = true // first registered
+		case 1:
+			bad[nr-1] = true // last registered
+		case 2:
+			bad[nr/2] = true // a middle one (the last of two)
+		default:
+			for i := 0; i < nr; i++ {
+				bad[i] = r.Intn(2) == 0
+			}
+			bad[r.Intn(nr)] = false // at least one healthy reader
+		}
+	}
+	sc.BadView = mode == 1 || mode == 2
+	for i := 0; i < nr; i++ {
+		rc := ReaderC{Name: fmt.Sprintf("r%d", i+1), Temp: []string{"delta", "cumulative"}[r.Intn(2)], Kind: "manual", ExpMode: "ok", BadAgg: bad[i]}
+		if r.Intn(4) == 0 {
+			rc.Kind = "periodic" // interval one hour: exports through ForceFlush / Shutdown only
+		}
+		sc.Readers = append(sc.Readers, rc)
+	}
+	ni := 1 + r.Intn(2)
+	for i := 0; i < ni; i++ {
+		sc.Insts = append(sc.Insts, InstC{Name: fmt.Sprintf("inst%d", i+1), Kind: []string{"counter", "updown"}[r.Intn(2)],
+			Num: []string{"int64", "float64"}[r.Intn(2)], Late: r.Intn(4) == 0})
+	}
+	if r.Intn(2) == 0 {
+		sc.Insts = append(sc.Insts, InstC{Name: fmt.Sprintf("inst%d", ni+1), Kind: "ocounter", Num: []string{"int64", "float64"}[r.Intn(2)]})
+	}
+	ng := 1 + r.Intn(2)
+	sc.Recs = make([][]AddC, ng)
+	nk := 0
+	for i, ic := range sc.Insts {
+		for a := 0; a < 1+r.Intn(2); a++ {
+			nk++
+			s := StreamC{Key: fmt.Sprintf("k%d", nk), Inst: i, Attr: a + 1, N: 1, Neg: []int{}}
+			if ic.Kind != "ocounter" {
+				s.N = 1 + r.Intn(5)
+				for j := 0; j < s.N; j++ {
+					if ic.Kind == "updown" && r.Intn(3) == 0 {
+						s.Neg = append(s.Neg, j)
+					}
+					g := r.Intn(ng)
+					sc.Recs[g] = append(sc.Recs[g], AddC{Key: s.Key, I: j})
+				}
+			}
+			sc.Streams = append(sc.Streams, s)
+		}
+	}
+	for g := range sc.Recs {
+		if sc.Recs[g] == nil {
+			sc.Recs[g] = []AddC{}
+		}
+	}
+	sc.Cols = []CallerC{}
+	for i, rc := range sc.Readers {
+		sc.Cols = append(sc.Cols, CallerC{Name: fmt.Sprintf("c%d", i+1), Reader: rc.Name, N: 1 + r.Intn(3), DelayUs: r.Intn(300)})
+	}
+	sc.Flushers = []CallerC{}
+	for _, rc := range sc.Readers {
+		if rc.Kind == "periodic" {
+			sc.Flushers = append(sc.Flushers, CallerC{Name: "f_" + rc.Name, Reader: rc.Name, N: 1 + r.Intn(2), DelayUs: r.Intn(300)})
+		}
+	}
+	sc.Stoppers = []CallerC{}
+	return sc
+}
+
 func main() {
 	if len(os.Args) < 2 {
-		fmt.Println("usage: c02 random|scripts ...")
+		fmt.Println("usage: c02 random|partial|scripts ...")
 		os.Exit(3)
 	}
 	fs := flag.NewFlagSet(os.Args[1], flag.ExitOnError)
@@ -1157,6 +1320,29 @@ func main() {
 			if i < 1 {
 				res.Sample(map[string]any{"readers": sc.Readers, "insts": sc.Insts, "recorders": len(sc.Recs), "cols": sc.Cols,
 					"flushers": sc.Flushers, "stoppers": sc.Stoppers})
+			}
+		}
+	case "partial":
+		r := rand.New(rand.NewSource(vh.Seed()*7919 + *seedOff))
+		for i := 0; i < *n; i++ {
+			sc := partialScenario(r)
+			runScenario(i, sc, tw, res)
+			res.Executed++
+			if sc.BadView {
+				res.Count("partial_bad_view_scenarios", 1)
+			}
+			for j, rc := range sc.Readers {
+				if rc.BadAgg {
+					res.Count("partial_bad_selector_readers", 1)
+					switch {
+					case j == 0:
+						res.Count("partial_bad_first", 1)
+					case j == len(sc.Readers)-1:
+						res.Count("partial_bad_last", 1)
+					default:
+						res.Count("partial_bad_middle", 1)
+					}
+				}
 			}
 		}
 	case "scripts":
